@@ -95,6 +95,8 @@ pub enum Task {
     Reuse(usize, usize),
     /// line/column lookups on the shared schema's source file (a per-file cache shared by all threads)
     LineCol(usize),
+    /// implementers map, subtype checks and meta-field lookups on the shared schema or a local one
+    ImplMap(usize),
 }
 
 impl Task {
@@ -113,6 +115,7 @@ impl Task {
             Task::ExecBuilder(a, b) => format!("xb:{a}:{b}"),
             Task::Reuse(a, b) => format!("reuse:{a}:{b}"),
             Task::LineCol(k) => format!("linecol:{k}"),
+            Task::ImplMap(k) => format!("implmap:{k}"),
         }
     }
     fn from_s(s: &str) -> Option<Task> {
@@ -131,6 +134,7 @@ impl Task {
             ["xb", a, b] => Task::ExecBuilder(a.parse().ok()?, b.parse().ok()?),
             ["reuse", a, b] => Task::Reuse(a.parse().ok()?, b.parse().ok()?),
             ["linecol", k] => Task::LineCol(k.parse().ok()?),
+            ["implmap", k] => Task::ImplMap(k.parse().ok()?),
             _ => return None,
         })
     }
@@ -144,6 +148,7 @@ impl Task {
                 | Task::ExecBuilder(..)
                 | Task::Reuse(..)
                 | Task::LineCol(_)
+                | Task::ImplMap(_)
         )
     }
 }
@@ -249,8 +254,10 @@ pub fn gen_case(run_seed: u64, tier: Tier, force_cold: Option<bool>) -> Case {
                     9 => Task::Introspect,
                     10 => Task::Multi(wl.usize(SCHEMAS.len()), wl.usize(SCHEMAS.len())),
                     _ => {
-                        let k = wl.below(7);
-                        if k == 5 {
+                        let k = wl.below(8);
+                        if k == 7 {
+                            Task::ImplMap(wl.usize(SCHEMAS.len() + 1))
+                        } else if k == 5 {
                             Task::Reuse(wl.usize(FIELD_SETS.len()), wl.usize(FIELD_SETS.len()))
                         } else if k == 6 {
                             Task::LineCol(wl.usize(4))
@@ -454,6 +461,43 @@ fn run_task(task: &Task, shared: Option<&Arc<Valid<Schema>>>, shared_ids: &BTree
             }
             TaskResult { output, ids }
         }
+        Task::ImplMap(k) => {
+            // k == 0: the shared schema; otherwise a schema of its own (a cache keyed too
+            // coarsely would leak entries from one schema into another)
+            let own;
+            let schema: &Schema = if *k == 0 {
+                shared.expect("shared schema")
+            } else {
+                own = match Schema::parse(SCHEMAS[*k - 1], format!("implmap{k}.graphql")) {
+                    Ok(s) => s,
+                    Err(e) => e.partial,
+                };
+                &own
+            };
+            let map = schema.implementers_map();
+            let mut lines: Vec<String> = map
+                .iter()
+                .map(|(name, imp)| {
+                    let mut objects: Vec<&str> = imp.objects.iter().map(|n| n.as_str()).collect();
+                    let mut interfaces: Vec<&str> = imp.interfaces.iter().map(|n| n.as_str()).collect();
+                    objects.sort();
+                    interfaces.sort();
+                    format!("{name}: objects {objects:?} interfaces {interfaces:?}")
+                })
+                .collect();
+            lines.sort();
+            let mut output = lines.join("\n");
+            for (name, _) in schema.types.iter().take(12) {
+                for other in ["Node", "Named", "Pet", "I", "U"] {
+                    output.push_str(&format!("\nis_subtype({other}, {name}) = {}", schema.is_subtype(other, name)));
+                }
+                for meta in ["__typename", "__schema", "__type", "id"] {
+                    let r = schema.type_field(name, meta).map(|f| f.ty.to_string());
+                    output.push_str(&format!("\ntype_field({name}, {meta}) = {:?}", r.ok()));
+                }
+            }
+            TaskResult { output, ids: vec![] }
+        }
         Task::LineCol(k) => {
             let schema = shared.expect("shared schema");
             let mut output = String::new();
@@ -485,6 +529,35 @@ fn run_task(task: &Task, shared: Option<&Arc<Valid<Schema>>>, shared_ids: &BTree
                             "PACK MISMATCH tag={tag} id={raw}: got tag={t2} id={}\n",
                             id2.__verif_raw()
                         ));
+                    }
+                }
+                // recompose keeps the file id when both ends are in the same file, and picks one
+                // of the two when they are not
+                let a = SourceSpan::__verif_new(id, 2, 5);
+                let b = SourceSpan::__verif_new(id, 9, 12);
+                match SourceSpan::recompose(Some(a), Some(b)) {
+                    Some(r) if r.file_id() == id && r.offset() == 2 && r.end_offset() == 12 => {}
+                    other => out.push_str(&format!(
+                        "RECOMPOSE MISMATCH id={raw}: {:?}\n",
+                        other.map(|r| (r.file_id().__verif_raw(), r.offset(), r.end_offset()))
+                    )),
+                }
+                let other = SourceSpan::__verif_new(FileId::BUILT_IN, 1, 3);
+                if *raw != 1 {
+                    match SourceSpan::recompose(Some(a), Some(other)) {
+                        Some(r) if r.file_id() == id || r.file_id() == FileId::BUILT_IN => {}
+                        bad => out.push_str(&format!("RECOMPOSE MISMATCH across files id={raw}: {:?}\n", bad.map(|r| r.file_id().__verif_raw()))),
+                    }
+                }
+                if SourceSpan::recompose(None, Some(a)).map(|r| r.file_id()) != Some(id)
+                    || SourceSpan::recompose(Some(a), None).map(|r| r.file_id()) != Some(id)
+                {
+                    out.push_str(&format!("RECOMPOSE MISMATCH single id={raw}\n"));
+                }
+                // ordering and Debug of ids follow the integer value
+                if let Some(next) = FileId::__verif_from_raw(raw.wrapping_add(1)) {
+                    if !(id < next) || format!("{id:?}") != raw.to_string() {
+                        out.push_str(&format!("ID ORDER/DEBUG MISMATCH id={raw}\n"));
                     }
                 }
                 // the public path: a name carrying a location in that file
